@@ -228,7 +228,7 @@ theorem discusHeader_noCell (lines : List Str) (h : DHdr) (hno : ∀ l ∈ lines
     (∃ e, discusHeader lines h = .error e ∧ (e = .sfe ∨ e = .notImpl)) ∨
     ∃ h' rest, discusHeader lines h = .ok (h', rest) ∧ h'.cellRead = h.cellRead := by
   induction lines generalizing h with
-  | nil => right; exact ⟨h, [], rfl, rfl⟩
+  | nil => left; exact ⟨.sfe, rfl, Or.inl rfl⟩
   | cons line rest ih =>
     have ih' := fun h => ih h (fun l hl => hno l (List.mem_cons_of_mem _ hl))
     rw [discusHeader]
@@ -281,7 +281,7 @@ theorem pdffitHeader_noCell (lines : List Str) (h : PHdr) (hno : ∀ l ∈ lines
     pdffitHeader lines h = .error .sfe ∨
     ∃ h' rest, pdffitHeader lines h = .ok (h', rest) ∧ h'.cellRead = h.cellRead := by
   induction lines generalizing h with
-  | nil => right; exact ⟨h, [], rfl, rfl⟩
+  | nil => left; rfl
   | cons line rest ih =>
     have ih' := fun h => ih h (fun l hl => hno l (List.mem_cons_of_mem _ hl))
     rw [pdffitHeader]
